@@ -10,3 +10,24 @@ pub proof fn lemma_shift7(o: u128, lo: u128) requires o <= 0xffff_ffff_ffff_ffff
 /// the value only grows with more digits: once the prefix value exceeds u64, every longer prefix does
 pub proof fn lemma_val_mono(s: Seq<u8>, a: int, b: int) requires 0 <= a <= b ensures vn_val(s, a) <= vn_val(s, b) decreases b - a
 { if a < b { lemma_val_mono(s, a, b - 1); assert(vn_val(s, b) == vn_val(s, b - 1) * 128 + (s[b - 1] % 128) as nat); assert(vn_val(s, b - 1) * 128 >= vn_val(s, b - 1)) by (nonlinear_arith); } }
+/// the decoder as one function of the bytes: the unique complete prefix, if its value fits 64 bits
+pub open spec fn vn_len(s: Seq<u8>) -> int { choose|n: int| vn_ends(s, n) }
+pub open spec fn vn_dec(s: Seq<u8>) -> Option<(u64, usize)> {
+    if (exists|n: int| vn_ends(s, n)) && vn_val(s, vn_len(s)) <= u64::MAX { Some((vn_val(s, vn_len(s)) as u64, vn_len(s) as usize)) } else { None }
+}
+pub proof fn lemma_ends_unique(s: Seq<u8>, a: int, b: int) requires vn_ends(s, a), vn_ends(s, b) ensures a == b
+{ if a < b { assert(s[a - 1] >= 128); } else if b < a { assert(s[b - 1] >= 128); } }
+/// what variable_nat_decode's three postconditions add up to
+pub proof fn lemma_vn_dec(s: Seq<u8>, r: Option<(u64, usize)>)
+    requires s.len() <= usize::MAX,
+        r is Some ==> vn_ends(s, r->Some_0.1 as int) && vn_val(s, r->Some_0.1 as int) == r->Some_0.0,
+        r is None ==> vn_cont(s, s.len() as int) || exists|n: int| 1 <= n <= s.len() && vn_cont(s, n - 1) && vn_val(s, n) > u64::MAX,
+    ensures r == vn_dec(s)
+{
+    if r is Some { let n = r->Some_0.1 as int; lemma_ends_unique(s, n, vn_len(s)); }
+    else if exists|n: int| vn_ends(s, n) {
+        let m = vn_len(s);
+        if vn_cont(s, s.len() as int) { assert(s[m - 1] >= 128); }
+        else { let n = choose|n: int| 1 <= n <= s.len() && vn_cont(s, n - 1) && vn_val(s, n) > u64::MAX; if m < n { assert(s[m - 1] >= 128); } else { lemma_val_mono(s, n, m); } }
+    }
+}
